@@ -10,3 +10,8 @@ func VerifCycleCheck(g *BuildGraph) []*BuildTarget {
 	}
 	return nil
 }
+
+// VerifUnforwardedResults returns how many build results have been logged but not yet forwarded to the Results() channel.
+func VerifUnforwardedResults(state *BuildState) int {
+	return len(state.progress.internalResults)
+}
